@@ -380,6 +380,15 @@ func (p *Pool) register() {
 	poolsMu.Unlock()
 }
 
+// samePooledObject: pointer identity of two pooled objects.
+func samePooledObject(a, b any) bool {
+	va, vb := reflect.ValueOf(a), reflect.ValueOf(b)
+	if va.Kind() != reflect.Ptr || vb.Kind() != reflect.Ptr {
+		return false
+	}
+	return va.Pointer() == vb.Pointer()
+}
+
 // Fingerprint renders the observable state of a pooled object; the harness may replace it.
 var Fingerprint = func(x any) string {
 	if l, ok := x.(interface{ Len() int }); ok {
@@ -425,6 +434,15 @@ func (p *Pool) Put(x any) {
 	}
 	p.mu.Lock()
 	p.register()
+	if s != nil && s.err == "" && x != nil {
+		// the same object handed back twice: two later Gets would hand it to two users at once
+		for _, y := range p.stack {
+			if samePooledObject(x, y) {
+				s.err = fmt.Sprintf("pool misuse: the same %T was returned to the pool twice (it is still in the pool)", x)
+				break
+			}
+		}
+	}
 	p.stack = append(p.stack, x)
 	fp := ""
 	if s != nil {
